@@ -164,7 +164,8 @@ def check_property(pid, tier='quick', seed=0):
         print('ERROR no functions under contract for %s' % pid)
         return 3
     results = run_functions(keys, tier)
-    known = [k for k in load_known() if k.get('property') == pid]
+    known = [k for k in load_known()
+             if k.get('property') == pid or (isinstance(k.get('property'), list) and pid in k['property'])]
     open_known = [k for k in known if k.get('status') == 'open']
     total = discharged = 0
     failing = []       # (result, obligation)
@@ -180,6 +181,8 @@ def check_property(pid, tier='quick', seed=0):
             errors.append(r)
             continue
         for o in r['obligations']:
+            if o['kind'] == 'scope' and pid != 'C14':
+                continue        # timeout-scope obligations (G4) are decided by the C14 check only
             total += 1
             solver_time += o['time']
             if o['status'] in ('proved', 'trivial'):
